@@ -31,11 +31,15 @@ const (
 	dComment
 	dBlank
 	dKeep
+	dCMTail
+	dHookTail
 	// thorough only
 	dGadget
 	dHookUK
 	dWsBlank
 	dAnno
+	dCMKeep
+	dIndent
 	nDocTypes
 )
 
@@ -57,10 +61,15 @@ var docTypes = [nDocTypes]docType{
 	dComment: {"comment", "# %s: only a comment\n", "nothing"},
 	dBlank:   {"blank", "", "nothing"},
 	dKeep:    {"keep", hookHead + "    helm.sh/resource-policy: keep\ndata:\n  k: v\n", "manifest"},
-	dGadget:  {"gadget", "apiVersion: example.verif/v1\nkind: Gadget\nmetadata:\n  name: %s\n", "manifest"},
-	dHookUK:  {"hookUK", hookHead + "    helm.sh/hook: pre-frobnicate,post-install\ndata:\n  h: \"1\"\n", "dropped"},
-	dWsBlank: {"wsblank", "  \n", "nothing"},
-	dAnno:    {"anno", "apiVersion: v1\nkind: Service\nmetadata:\n  name: %s\n  annotations:\n    example.verif/owner: team\nspec:\n  ports:\n  - port: 81\n", "manifest"},
+	// documents whose last value is a literal block scalar: its final line break belongs to the value
+	dCMTail:   {"cmtail", "apiVersion: v1\nkind: ConfigMap\nmetadata:\n  name: %s\ndata:\n  run.sh: |\n    #!/bin/sh\n    echo hi\n", "manifest"},
+	dHookTail: {"hooktail", hookHead + "    helm.sh/hook: pre-install\ndata:\n  run.sh: |\n    #!/bin/sh\n    echo hi\n", "hook"},
+	dGadget:   {"gadget", "apiVersion: example.verif/v1\nkind: Gadget\nmetadata:\n  name: %s\n", "manifest"},
+	dHookUK:   {"hookUK", hookHead + "    helm.sh/hook: pre-frobnicate,post-install\ndata:\n  h: \"1\"\n", "dropped"},
+	dWsBlank:  {"wsblank", "  \n", "nothing"},
+	dCMKeep:   {"cmkeep", "apiVersion: v1\nkind: ConfigMap\nmetadata:\n  name: %s\ndata:\n  text: |+\n    line\n\n\n", "manifest"},
+	dIndent:   {"indented", "  apiVersion: v1\n  kind: ConfigMap\n  metadata:\n    name: %s\n  data:\n    k: v\n", "manifest"},
+	dAnno:     {"anno", "apiVersion: v1\nkind: Service\nmetadata:\n  name: %s\n  annotations:\n    example.verif/owner: team\nspec:\n  ports:\n  - port: 81\n", "manifest"},
 }
 
 func docBody(t int, name string) string {
@@ -105,6 +114,7 @@ type pcase struct {
 	SubOn    bool       `json:"sub_on,omitempty"`    // subchart present (possibly with NOTES only)
 	SubNotes bool       `json:"sub_notes,omitempty"` // subchart has templates/NOTES.txt
 	SubFlag  bool       `json:"sub_flag,omitempty"`  // action flag SubNotes (--render-subchart-notes)
+	Real     bool       `json:"real,omitempty"`      // sub-part U: real install + uninstall on the simulated cluster instead of a dry run
 }
 
 const (
@@ -245,6 +255,9 @@ func (p pcase) shape() string {
 	if p.SubFlag {
 		parts = append(parts, "subnotes-flag")
 	}
+	if p.Real {
+		parts = append(parts, "real")
+	}
 	return strings.Join(parts, ",")
 }
 
@@ -257,7 +270,7 @@ func (p pcase) canon() string {
 		}
 	}
 	wr(p.Files)
-	fmt.Fprintf(&sb, "|%v%v%v%v%v|", p.Notes, p.Helpers, p.SubOn, p.SubNotes, p.SubFlag)
+	fmt.Fprintf(&sb, "|%v%v%v%v%v%v|", p.Notes, p.Helpers, p.SubOn, p.SubNotes, p.SubFlag, p.Real)
 	wr(p.Sub)
 	return sb.String()
 }
